@@ -31,12 +31,15 @@ fn observe(ts: &[merlin::Transcript], sts: &[Stmt], proofs: &[Proof], action: Ve
     let ok = r?.is_ok();
     let Some(call) = log.msm.last() else { return Ok(None) };
     let mut weights = vec![];
-    for b in &bs {
+    for (idx, b) in bs.iter().enumerate() {
+        // members with the same B (the same proof submitted more than once) are told apart by their order
+        let copies = bs.iter().filter(|x| *x == b).count();
+        let nth = bs[..idx].iter().filter(|x| *x == b).count();
         let pairs: Vec<_> = call.dynamic.iter().filter(|(_, p)| p == b).collect();
-        if pairs.len() != 1 {
-            return Err(format!("B appears {} times in the final multiscalar multiplication", pairs.len()));
+        if pairs.len() != copies {
+            return Err(format!("B of member {idx} appears {} times in the final multiscalar multiplication, {copies} expected", pairs.len()));
         }
-        weights.push(-pairs[0].0);
+        weights.push(-pairs[nth].0);
     }
     Ok(Some(Observed { ok, weights, residual: call.result.clone() }))
 }
@@ -170,6 +173,53 @@ pub fn run(ctx: &Ctx, rep: &mut Report) {
                         rep.count("residuals_explained_by_weights", 1);
                         last = Some(o);
                     }
+                }
+            }
+        }
+        // ---- (4) the same attack on a batch in which each proof is submitted twice: the copies carry identical
+        // defects (so they stay identical), and the attacker sums the factors of the copies observed on the previous run
+        if b % 2 == 0 {
+            let idx = [0usize, 0, 1, 1];
+            let dts: Vec<merlin::Transcript> = idx.iter().map(|i| ts[*i].clone()).collect();
+            let dsts: Vec<Stmt> = idx.iter().map(|i| sts[*i].clone()).collect();
+            for kk in 0..ext {
+                let delta_p = rand_scalar(&mut rng);
+                let mut delta_q = -delta_p;
+                let mut last: Option<Observed> = None;
+                for round in 0..rounds {
+                    if let Some(o) = &last {
+                        let wq = o.weights[2] + o.weights[3];
+                        if wq == Scalar::ZERO {
+                            break;
+                        }
+                        delta_q = -delta_p * (o.weights[0] + o.weights[1]) * wq.invert();
+                    }
+                    let p2 = bump_d1(&proofs[0], kk, &delta_p);
+                    let q2 = bump_d1(&proofs[1], kk, &delta_q);
+                    let pr = vec![p2.clone(), p2, q2.clone(), q2];
+                    rep.eval(&("attack-duplicates", b, kk, round));
+                    rep.count("attack_rounds_with_duplicated_members", 1);
+                    let o = match observe(&dts, &dsts, &pr, action) {
+                        Ok(Some(o)) => o,
+                        Ok(None) => break,
+                        Err(e) => {
+                            rep.violation("C08 weights-unobservable", &e, replay("duplicated members"));
+                            break;
+                        },
+                    };
+                    if o.weights.iter().any(|w| *w == Scalar::ZERO) {
+                        rep.violation("C08 zero-weight", "a proof enters the batch equation with weight zero (batch with duplicated members)", replay("duplicated members"));
+                        break;
+                    }
+                    if o.ok || o.residual.is_zero() {
+                        rep.violation(
+                            &format!("C08 cancellation-accepted duplicated-members round{}", if round == 0 { "0" } else { ">0" }),
+                            &format!("batch [P', P', Q', Q'] of individually invalid proofs: offsetting defects on coordinate {kk}, computed from the factors observed on the previous run, were accepted in round {round}"),
+                            replay(&format!("attack on duplicated members, coordinate {kk} round {round}")),
+                        );
+                        break;
+                    }
+                    last = Some(o);
                 }
             }
         }
